@@ -12,6 +12,12 @@ CLAIMED = {
    text="Proof: the Gallina model of ModulePath (Path/Model.v) is proved to compute the unique normal form of the '.', '..', empty-segment rewrite system, to return '/'+join of plain segments for every absolute importer, to be idempotent and to identify all spellings related by rewriting (Path/Properties.v, closed under the global context, unbounded in path length). The model is tied to the Rust code on every run by running the extracted model and the real ModulePath::resolve on the exhaustive alphabet enumeration, random long/non-ASCII paths and the corpus.",
    note="Trusted: Coq kernel; ExtrOcamlBasic extraction + 40-line OCaml driver; the Rust harness; byte-level modelling of UTF-8 strings ('/' is ASCII). The model is hand-written: equality with the code is established by correspondence on the enumerated/drawn inputs, not proved.",
    design_ref="DESIGN.md §5 C18"),
+ "C13": dict(
+   engine="Gc",
+   technique="Coq proof (structural invariant over all histories, marking = guard reachability, collection exactness, frame lemma) + op-by-op correspondence of the extracted model with tsrun::gc, abstract-heap oracle",
+   text="Proof: Gc/Model.v renders src/gc.rs operation by operation (alloc with collect-before-allocate, clone/drop with the count-reached-zero branch, guard/unguard with swap_remove, iterative mark, two-pass sweep, pool reuse, heap drop). Proved for every history, unbounded: the structural invariant (all indices in range, free list = pooled set, no duplicates: c13_structural_invariant), mark computes exactly reachability from live guards (c13_mark_is_reachability), a collection keeps exactly the reachable objects with contents and resets/pools the rest (c13_collect_exact, c13_live_objects_count), no other operation changes a live object it does not write unless Gc::drop's zero branch fires (c13_frame). The two known findings are refuted by kernel-evaluated witnesses. Partial: 'the zero branch never fires on histories without stale handles' is stated, not proved; it is checked on every generated history via the model's ghost counter.",
+   note="Trusted: Coq kernel + vm_compute; ExtrOcamlBasic extraction + OCaml driver; Rust harness with the {value, refs} payload; the abstract-heap oracle in lib/c13.py. Marking uses explicit fuel (out-of-fuel excluded by the theorem statement and reported as a framework error by the correspondence). Chunk/bitmap addressing is abstracted to a flat slot index; actual addresses and unsafe pointer validity are not modelled (dereference after heap drop is predicted, not executed).",
+   design_ref="DESIGN.md §5 C13"),
 }
 
 NOT_YET = "not claimed yet in this revision: its model/theorem pair is not built; see DESIGN.md §5 and §8 (build order)"
